@@ -94,8 +94,11 @@ def vttRep (s : Subs) : Bool :=
     (match it.region with | some r => plainValue r && s.regions.any (·.id = r) | none => true) &&
     (it.comments.all fun c => trimSpace c = c && c ≠ [] && plainText c && !hasPrefix "NOTE ".toList c) &&
     !it.lines.isEmpty && it.lines.all fun l =>
-      (l.voice = trimSpace l.voice && !(l.voice.any fun c => c = '<' || c = '>' || c = '&' || c = '/' || c = '\n' || c = '\r')) &&
+      (l.voice = trimSpace l.voice && !(l.voice.any fun c => c = '<' || c = '>' || c = '&' || c = '/' || c = '=' || c = '"' || c = '\'' || c = '\n' || c = '\r') &&
+        !hasSuffix "--".toList l.voice) &&
       !l.items.isEmpty &&
+      -- runs written without a tag in between are one text: "--" then ">" must not meet
+      plainText (l.items.foldl (fun acc li => acc ++ li.text) []) &&
       -- the line as a whole keeps its outer white space only if there is none
       (match l.items.head?, l.items.getLast? with
        | some a, some b => (a.text.head?.map isSpace) != some true && (b.text.getLast?.map isSpace) != some true
@@ -106,7 +109,11 @@ def vttRep (s : Subs) : Bool :=
         (VTT.tagsOfAttrs li.attrs).all fun t =>
           t.name ≠ [] && t.name ≠ "v".toList && (t.name.all fun c => c.isAlphanum || c = '_') && (t.name.head?.map Char.isAlpha) == some true &&
           (t.classes.all fun c => c ≠ [] && c.all fun ch => ch.isAlphanum || ch = '_' || ch = '-') &&
-          t.annotation = trimSpace t.annotation && (t.annotation.all fun c => c.isAlphanum || c = '-' || c = ' ' || c = '_')) &&
+          t.annotation = trimSpace t.annotation && (t.annotation.all fun c => c.isAlphanum || c = '-' || c = ' ' || c = '_') &&
+          -- the tag as written must not end in "--" (with the closing '>' the line would hold "-->")
+          !hasSuffix "--".toList t.annotation && !hasSuffix "--".toList (t.classes.getLast?.getD []) &&
+          -- names the HTML tokenizer treats as raw text elements are outside its model
+          !(Go.rawTags.contains (String.ofList (Go.toLowerAscii t.name)))) &&
   (s.regions.all fun d => plainValue d.id &&
     attrsOk d.attrs ["WebVTTLines", "WebVTTRegionAnchor", "WebVTTScroll", "WebVTTViewportAnchor", "WebVTTWidth"] &&
     attrsOk (VTT.styleAttrs s d.ref) ["WebVTTLines", "WebVTTRegionAnchor", "WebVTTScroll", "WebVTTViewportAnchor", "WebVTTWidth"]) &&
